@@ -70,6 +70,8 @@ func ruleC07(c *Ctx) {
 	c.rule("C07-R5", "SP certificate validation: with ValidateEncryptionCert on, accepting paths of getDecryptCert carry non-empty cert, ParseCertificate ok and the closed validity window on the SP clock (truth tables)")
 	c.rule("C07-R7", "xmlenc schema table: the fields the decrypting code reads (inline / detached EncryptedKey, its KeyInfo certificate, CipherValue, EncryptionMethod / DigestMethod algorithms) are decoded from the element paths the code assumes, matched by local name without a namespace restriction — a narrowed tag leaves X509Data empty and the recipient check is skipped")
 	checkSchemaTableF(c, "C07-R7", encSchemaTable, true, 11)
+	c.rule("C07-R8", "the certificate that is compared with the named recipient and checked for validity is the one of the key that decrypts: getDecryptCert selects its key store exactly like GetEncryptionCertBytes / the published metadata in all field / setter configurations (shared key-source decision tables, C11-R3) — a stale field key used next to a setter key accepts an EncryptedKey addressed to the old certificate")
+	tableAgreement(c, "C07-R8", encryptionSelectors(c), 4)
 	c.rule("C07-R6", "who-may-call: decrypt routines are called only from decryptAssertions (and each other) with the certificate produced by getDecryptCert")
 
 	// --- R1, R3 on decryptAssertions
@@ -701,6 +703,18 @@ func ruleC12(c *Ctx) {
 		c.floor("C12-R3/second-decodes", 2)
 	}
 
+	// R4c the pre-decoders' callbacks decode the bytes they are handed (second attempt: the inflated ones)
+	for _, fn := range []string{"DecodeUnverifiedBaseResponse", "DecodeUnverifiedLogoutResponse"} {
+		r := c.kernel(fn, "*")
+		if r == nil {
+			continue
+		}
+		for _, t := range r.Terms {
+			if t.accepting(r.Root) {
+				secondAttemptInput(c, "C12-R4", t, shortFn(r.Root), decodes(t))
+			}
+		}
+	}
 	// R4b transparency of the XML decoder closure: fresh document per attempt, screened bytes (shared with C01-R5)
 	screenRule(c, "C12-R4/parse")
 
